@@ -43,8 +43,10 @@ def validity_fails(obs, where="machine"):
 
 
 # ------------------------------------------------------------------------------------- C03
-def phantom_fails(case, stored, exp):
-    """stored prefixes at compressed output levels must have structural support."""
+def phantom_fails(case, stored, exp, levels=None):
+    """stored prefixes at compressed output levels must have structural support.  With ``levels`` (the raw pos/crd
+    arrays of the output) the stored prefixes are read off the structure itself, so a coordinate stored at an upper
+    level with nothing stored below it is seen too."""
     from . import oracle as O
 
     oname = case["target"][0]
@@ -67,6 +69,10 @@ def phantom_fails(case, stored, exp):
         lc = lvl(c)
         for l in range(order):
             st_prefix[l].add(lc[: l + 1])
+    if levels is not None:
+        dims = [case["sizes"][i] for i in case["target"][1]]
+        raw_prefix = C.stored_prefixes(levels, dims, ordering)
+        st_prefix = [a | b for a, b in zip(st_prefix, raw_prefix)]
     ph = [(l, p) for l in range(order) if modes[l] == "s" for p in sorted(st_prefix[l]) if p not in sup_prefix[l]]
     fails = []
     if ph:
